@@ -35,6 +35,8 @@ expand_before_binary_op_rules (38 rules: Bin(Expand(x, s), y) and Bin(x, Expand(
 """
 from __future__ import annotations
 
+import zlib
+
 import numpy as np
 
 from vf.modelgen import BOOL, F16, F32, F64, I32, I64, U8, make_array
@@ -48,7 +50,16 @@ class _Rng:
     which starves the 19 ops x 2 positions grid); everything stays a pure function of Hypothesis draws."""
 
     def __init__(self, g):
-        self.r = np.random.default_rng(g.seed())
+        self.key = [g.seed() for _ in range(6)]
+        self.r = np.random.default_rng(self.key)
+
+    def mix(self, val):
+        """Fold a later Hypothesis-drawn payload (the sample array of a new input) into the stream, so that Hypothesis' habit of
+        re-running an example with only some integer draws copied around yields a structurally different host, not a clone."""
+        a = np.ascontiguousarray(val.arr)
+        self.key = self.key[:6] + [zlib.crc32(a.tobytes()), int(self.r.integers(0, 2**31 - 1))]
+        self.r = np.random.default_rng(self.key)
+        return val
 
     def pick(self, seq):
         seq = list(seq)
@@ -77,12 +88,12 @@ def host_scatter_static(g):
     sym = rr.pick(["static", "static", "static", "named", "anon"])
     dsrc = rr.pick(["input", "input", "input", "const", "mid"])
     if dsrc == "input":
-        data = g.add_input(dt, dshape, dims=_sym_first(g, dshape, sym))
+        data = rr.mix(g.add_input(dt, dshape, dims=_sym_first(g, dshape, sym)))
     elif dsrc == "const":
         data = g.const_array(make_array(g.seed(), dt, dshape), how=rr.pick(["node", "init"]))
         sym = "static"
     else:
-        base = g.add_input(dt, dshape, dims=_sym_first(g, dshape, sym))
+        base = rr.mix(g.add_input(dt, dshape, dims=_sym_first(g, dshape, sym)))
         r = g.emit("Identity" if dt == BOOL or rr.chance(5) else "Neg", [base])
         if not r:
             return None
@@ -206,7 +217,7 @@ def host_scatter_dynamic(g):
         ddims[pa] = "N"
     elif sym == "anon":
         ddims[pa] = None
-    data = g.add_input(dt, shape, dims=ddims)
+    data = rr.mix(g.add_input(dt, shape, dims=ddims))
     g.features.add(f"{tag}:dim_{sym}")
     g.features.add(f"{tag}:axis_{'neg' if axis < 0 else 'nonneg'}")
 
@@ -271,7 +282,7 @@ def host_scatter_dynamic(g):
             odims[0] = "N" if tv == "other_same" else "M"
         elif sym == "anon":
             odims[0] = None
-        td = g.add_input(dt, oshape, dims=odims)
+        td = rr.mix(g.add_input(dt, oshape, dims=odims))
     g.features.add(f"{tag}:td_{tv}")
     ushape = (m,) + tuple(td.shape[1:])
     udims = list(ushape)
@@ -380,7 +391,7 @@ def _operand(g, rr, dt, shape, who, role, tagset):
         else:
             arr = make_array(g.seed(), dt, shape, rr.pick(["mixed", "edge", "smallint"]))
         return g.const_array(arr, how=rr.pick(["node", "init", "init"]))
-    v = g.add_input(dt, shape, dims=_decl_dims(rr, shape, mode, who))
+    v = rr.mix(g.add_input(dt, shape, dims=_decl_dims(rr, shape, mode, who)))
     if src == "mid":
         r = g.emit("Identity", [v])
         return r[0] if r else None
